@@ -21,9 +21,22 @@ D_POOL = [0.0, 0.25, 0.5, 1.0, 0.1, 0.3, 2.3, 9.0, 250.0]
 ITEMS = ["a", "b", "c", "d", "e", ("a", "b"), ("b", "a"), 7]
 
 
+API = ("insert", "update", "remove", "choose_random", "random_removal", "total_weight", "__len__", "__contains__")
+
+
 def get_class():
+    """The private candidate-set class, or None when it does not exist (any
+    more) with the interface this machine drives - in which case the machine
+    is skipped and only the behavioural walks decide C16."""
     import EoN.simulation as S
-    return getattr(S, "_ListDict_", None)
+    cls = getattr(S, "_ListDict_", None)
+    if cls is None or any(not hasattr(cls, m) for m in API):
+        return None
+    try:
+        cls(weighted=True)
+    except Exception:
+        return None
+    return cls
 
 
 class Machine(object):
@@ -75,11 +88,9 @@ class Machine(object):
     def check(self, opname):
         """Invariants after an operation.  Returns a violation message or None."""
         ld, bag = self.ld, self.bag
-        members = {repr(ITEMS[i]) for i in bag}
-        have = {repr(x) for x in ld.items}
-        if members != have or len(ld) != len(bag):
-            return ("membership", "after %s: candidate set holds %r (len %d), reference %r"
-                    % (opname, sorted(have), len(ld), sorted(members)))
+        if len(ld) != len(bag):
+            return ("membership", "after %s: candidate set has len %d, reference holds %r"
+                    % (opname, len(ld), sorted(repr(ITEMS[i]) for i in bag)))
         for i in range(len(ITEMS)):
             if (ITEMS[i] in ld) != (i in bag):
                 return ("membership", "after %s: `%r in set` is %r, reference %r"
